@@ -4,6 +4,7 @@ import (
 	"context"
 	"errors"
 	"fmt"
+	"math"
 	"math/rand/v2"
 	"sort"
 	"strings"
@@ -841,12 +842,16 @@ type InvScenario struct {
 func genC17(r *rand.Rand, _ int, _ string) *Scenario {
 	sc := &Scenario{Engine: "tr", TickNs: pick(r, int64(1), 100, 1000), MapSeed: r.Uint64(), JitterSeed: r.Uint64()}
 	sc.NoFastPath = chance(r, 0.1)
-	iv := &InvScenario{SkipIntervalNs: pick(r, int64(0), 1, 1000, ms, sec, 15*sec, 3600*sec), Callbacks: r.IntN(6)}
+	iv := &InvScenario{SkipIntervalNs: pick(r, int64(0), 1, 1000, ms, sec, 15*sec, 3600*sec, 3600*sec, 100*365*24*3600*sec, math.MaxInt64), Callbacks: r.IntN(6)}
 	sc.TR = &TRScenario{Mode: "invalidator", Inv: iv}
 
 	si := iv.SkipIntervalNs
 	if si == 0 {
 		si = 15 * sec
+	}
+
+	if si > 10*365*24*3600*sec {
+		si = 3600 * sec // "once per process" intervals: sleeps and callbacks of hours never reach them
 	}
 
 	for i := 0; i < iv.Callbacks; i++ {
@@ -1064,6 +1069,36 @@ func runInvalidator(e *env) {
 		}
 
 		out.probe("two_accepted_calls")
+	}
+
+	// R6: a rejection needs a reason. ErrAlreadyInvalidated says that an invalidation ran less than SkipInterval
+	// ago: some accepted call must have started before the rejected one returned, and at most SkipInterval
+	// (plus the same slack) before the rejected one was invoked.
+	if sc.Callbacks > 0 {
+		for _, rec := range recs {
+			if rec.err == nil || !errors.Is(rec.err, cache.ErrAlreadyInvalidated) {
+				continue
+			}
+
+			justified := false
+
+			for _, a := range accepted {
+				// the accepted call stamped its time somewhere between its invocation (it may have queued on the
+				// mutex) and its first callback; the rejected one looked at the clock no earlier than its invocation
+				stampHi := a.retT
+				if len(a.cbs) > 0 {
+					stampHi = a.cbs[0].enterT
+				}
+
+				if a.inv < rec.ret && float64(rec.invT-stampHi) < float64(si)+float64(8*e.sc.TickNs) {
+					justified = true
+				}
+			}
+
+			if !justified {
+				out.violate("C17.R6", "rejected-without-recent-invalidation", "Invalidate c%d.%d was rejected with ErrAlreadyInvalidated although no accepted call started within SkipInterval=%v before it (accepted calls so far: %d)", rec.client, rec.idx, si, len(accepted))
+			}
+		}
 	}
 
 	for _, a := range recs {
